@@ -198,6 +198,7 @@ inductive Out where
   | reconnect (wait : Bool) (server : Option Server)   -- driver.reconnect(...)
   | closed                                  -- real driver: socket of the current connection closed
   | connected (srv : Server) (tls : Bool) (verify : Bool)  -- real driver: new socket connected
+  | connectFailed (srv : Server)            -- real driver: connecting (or the TLS handshake set-up) failed
 deriving DecidableEq, Repr
 
 structure Cfg where
@@ -227,6 +228,7 @@ structure Cfg where
   certValidation : Bool    -- driver.anyCertValidationEnabled()
   verifyCerts : Bool       -- supybot.protocols.ssl.verifyCertificates
   servers : List Server    -- supybot.networks.<net>.servers
+  tlsFails : Bool := false -- wrapping a socket in TLS raises (e.g. ssl.authorityCertificate names a directory)
 deriving Repr
 
 /-- ircdb.networks.getNetwork(net): persisted across connections and restarts -/
@@ -242,6 +244,7 @@ structure Drv where
   scheduled : Bool := false                -- nextReconnectTime is set
   attempt : Int := -1
   sock : Nat := 0                          -- sockets opened so far (the current one has this number)
+  failNext : Nat := 0                      -- environment: the next so many connect() calls are refused
 deriving DecidableEq, Repr
 
 structure St where
@@ -423,12 +426,25 @@ def tlsChoice (cfg : Cfg) (srv : Server) : Bool × Bool :=
   let tls := cfg.ssl || srv.forced
   (tls, tls && (if srv.forced && !cfg.certValidation then true else cfg.verifyCerts))
 
+/-- does this connection attempt fail: the peer refuses, or TLS cannot be set up -/
+def connectFails (cfg : Cfg) (srv : Server) (s : St) : Bool :=
+  decide (0 < s.drv.failNext) || ((tlsChoice cfg srv).1 && cfg.tlsFails)
+
 /-- the connecting half of SocketDriver.reconnect once the server is known -/
 def connectTo (cfg : Cfg) (srv : Server) (s : St) : St :=
   let srv' : Server := { srv with attempt := some (srv.attempt.getD s.drv.attempt) }
+  if connectFails cfg srv' s then
+    -- socket.error: logged, `scheduleReconnect()`; the driver stays unconnected
+    event (.connectFailed srv')
+      { s with drv := { s.drv with current := srv', attempt := srv.attempt.getD s.drv.attempt, connected := false,
+                                   scheduled := true, sock := s.drv.sock + 1, failNext := s.drv.failNext - 1 } }
+  else
   event (.connected srv' (tlsChoice cfg srv').1 (tlsChoice cfg srv').2)
     { s with drv := { s.drv with current := srv', attempt := srv.attempt.getD s.drv.attempt, connected := true,
                                  sock := s.drv.sock + 1 } }
+
+/-- the environment refuses connections for a while (`SocketDriver` histories) -/
+def setFails (n : Nat) (s : St) : St := { s with drv := { s.drv with failNext := n } }
 
 /-- SocketDriver.reconnect(wait=False) after the reset: pick the server, connect, maybe TLS -/
 def drvConnect (cfg : Cfg) (server : Option Server) (s : St) : St :=
